@@ -17,7 +17,7 @@ pub use merge::ChunkMerger;
 pub use pins::ChunkPinRegistry;
 
 use crate::clock::BoundedClock;
-use crate::ingester::ParquetWriter;
+use crate::ingester::{ChunkMetadata, ParquetWriter};
 use crate::metadata::{CompactionJob, CompactionStatus, MetadataClient, TimeRange};
 use crate::sharding::{ShardAction, ShardMonitor, ShardSplitter};
 use crate::{Error, Result, StorageConfig};
@@ -604,9 +604,10 @@ impl Compactor {
 
             // Merge chunks
             match self.merge_chunks(&group, Level::L0).await {
-                Ok(target_path) => {
+                Ok(target) => {
+                    let target_path = target.path.clone();
                     self.metadata
-                        .complete_compaction(&group, &target_path)
+                        .complete_compaction_with_target(&group, &target)
                         .await?;
                     self.metadata
                         .update_compaction_status(&job.id, CompactionStatus::Completed)
@@ -732,9 +733,10 @@ impl Compactor {
             let level_label = level.to_string();
 
             match self.merge_chunks(&group, Level::L(level)).await {
-                Ok(target_path) => {
+                Ok(target) => {
+                    let target_path = target.path.clone();
                     self.metadata
-                        .complete_compaction(&group, &target_path)
+                        .complete_compaction_with_target(&group, &target)
                         .await?;
                     self.metadata
                         .update_compaction_status(&job.id, CompactionStatus::Completed)
@@ -791,7 +793,7 @@ impl Compactor {
     }
 
     /// Merge a group of chunks into one
-    async fn merge_chunks(&self, paths: &[String], level: Level) -> Result<String> {
+    async fn merge_chunks(&self, paths: &[String], level: Level) -> Result<ChunkMetadata> {
         // Read and merge chunks
         let merged_batch = self.merger.merge(paths).await?;
 
@@ -804,12 +806,49 @@ impl Compactor {
         // Generate target path
         let target_path = self.generate_compacted_path(level);
 
+        let parquet_size = parquet_bytes.len() as u64;
+
         // Upload to object storage
         self.object_store
             .put(&target_path.clone().into(), parquet_bytes.into())
             .await?;
 
-        Ok(target_path)
+        let (min_timestamp, max_timestamp) = Self::timestamp_bounds(&sorted)?;
+        Ok(ChunkMetadata {
+            path: target_path,
+            min_timestamp,
+            max_timestamp,
+            row_count: sorted.num_rows() as u64,
+            size_bytes: parquet_size,
+        })
+    }
+
+    /// Minimum and maximum of the `timestamp` column of a merged batch.
+    fn timestamp_bounds(batch: &arrow_array::RecordBatch) -> Result<(i64, i64)> {
+        use arrow_array::cast::AsArray;
+        use arrow_array::types::{Int64Type, TimestampNanosecondType};
+
+        let col = batch
+            .column_by_name("timestamp")
+            .ok_or_else(|| Error::InvalidSchema("Missing timestamp column".into()))?;
+
+        if let Some(ts) = col.as_primitive_opt::<TimestampNanosecondType>() {
+            return Ok((
+                arrow::compute::min(ts).unwrap_or(0),
+                arrow::compute::max(ts).unwrap_or(0),
+            ));
+        }
+        if let Some(ts) = col.as_primitive_opt::<Int64Type>() {
+            return Ok((
+                arrow::compute::min(ts).unwrap_or(0),
+                arrow::compute::max(ts).unwrap_or(0),
+            ));
+        }
+
+        Err(Error::InvalidSchema(format!(
+            "Timestamp column must be Timestamp(Nanosecond) or Int64, got {:?}",
+            col.data_type()
+        )))
     }
 
     /// Garbage collect old chunks with grace period
